@@ -5,6 +5,8 @@ from vf.harness import common as H
 BOUNDS = {"all": "definitions: curated + every 1-field (full alphabet) + every 2-field (core alphabet) struct [quick]; full alphabet 2-field exhaustive, 3-field and 3..6-field random samples [thorough]; x {<,>} x {packed,aligned} x {interpreted,compiled}; input = extent+slack symbolic bytes (<= 40) at offset 0; expression-sized arrays <= 3 elements; LEB128 canonical; floats non-NaN; wchar BMP non-surrogate"}
 
 PROPERTY = "C02"
+# random 4..6-member definitions with several forking members can explode: cap them so that the budget reaches the other families
+SETTINGS_THOROUGH = {"case_budget": 45.0, "max_paths": 20000}
 
 
 def make(case):
